@@ -12,7 +12,7 @@ import (
 
 func init() {
 	register(&propDef{ID: "C14", Run: runC14,
-		Explain:    "Structural necessary conditions of 'decoded headers are re-encoded without loss', decided on SSA/value flow of /repo: (1) format-taint: no network-derived string is the format operand of a fmt call; (2) decoder-errors: inside the header/URI decoders no error result of a sub-decoder or of strconv is discarded; (3) field-coverage: every field a decoder writes into a decoded type is read by that type's printer; (4) no-defaulting-printer: a printer never calls an accessor that substitutes a constant default; (5) delimiter-agreement: every constant separator a decoder strips at the level of a type (Split/Fields separators, tested-and-skipped first byte, exclusive index splits, stripped prefixes) is emitted by the printer of that type; sibling printers (Route vs Record-Route) are compared through the same rule; (6) accessor-keys: named accessors use the RFC 3261 parameter names, getter and setter alike; (7) ordered-lists: decoders only append to their lists and printers walk them with forward range loops.",
+		Explain:    "Structural necessary conditions of 'decoded headers are re-encoded without loss', decided on SSA/value flow of /repo: (1) format-taint: no network-derived string is the format operand of a fmt call; (2) decoder-errors: inside the header/URI decoders no error result of a sub-decoder or of strconv is discarded; (3) field-coverage: every field a decoder writes into a decoded type is read by that type's printer; (4) no-defaulting-printer: a printer never calls an accessor that substitutes a constant default; (5) delimiter-agreement: every constant separator a decoder strips at the level of a type (Split/Fields separators, tested-and-skipped first byte, exclusive index splits, stripped prefixes) is emitted by the printer of that type; sibling printers (Route vs Record-Route) are compared through the same rule; (6) accessor-keys: named accessors use the RFC 3261 parameter names, getter and setter alike; (7) ordered-lists: decoders only append to their lists and printers walk them with forward range loops; (8) decoder-grammar: a decoder that separates host and port at ':' takes a bracketed IPv6 reference into account (two open findings).",
 		NotDecided: "the round-trip law itself; value-level losses these rules cannot see (';' kept in a bare addr-spec, IPv6 references, user parts containing ';' or '?', a parameter written 'name=' with an empty value)."})
 }
 
@@ -667,6 +667,31 @@ func strippedSeparators(w *World, fn *ssa.Function) []strippedSep {
 			if excl && !incl {
 				out = append(out, strippedSep{b, cs.Name + " split excluding the separator", call, kv})
 			}
+		case "strings.Cut", "bytes.Cut":
+			// before, after, found := Cut(s, sep): the separator is in neither part
+			if sp, isC := constString(call.Call.Args[1]); isC && len(sp) > 0 {
+				kv := true
+				for _, r := range *call.Referrers() {
+					e, ok := r.(*ssa.Extract)
+					if !ok || e.Index > 1 {
+						continue
+					}
+					toKV := false
+					for _, rr := range *e.Referrers() {
+						if st, ok := rr.(*ssa.Store); ok {
+							if fa, ok := st.Addr.(*ssa.FieldAddr); ok && strings.HasPrefix(fieldRef(fa), "KeyValue.") {
+								toKV = true
+							}
+						}
+					}
+					if !toKV {
+						kv = false
+					}
+				}
+				for i := 0; i < len(sp); i++ {
+					out = append(out, strippedSep{sp[i], "strings.Cut separator", call, kv})
+				}
+			}
 		case "strings.HasPrefix":
 			// prefix tested and then cut off: s = x[len(prefix):]
 			if p, isC := constString(call.Call.Args[1]); isC {
@@ -788,6 +813,64 @@ func c14Delimiters(c *Ctx) {
 		c.undecided(rule, "floor", "-", fmt.Sprintf("only %d stripped separators recognised (expected >= 25): decoder idioms are not understood", n))
 	}
 	c14RequiredSeparators(c)
+	c14HostGrammar(c)
+}
+
+// c14HostGrammar: a host may be an IPv6 reference "[...]" that itself contains ':' (RFC 3261 hostport). A decoder
+// that separates host and port at a ':' must therefore look at the brackets first; one that does not cannot decode
+// sip:alice@[2001:db8::1]:5060 or "SIP/2.0/UDP [2001:db8::1]:5060" at all.
+func c14HostGrammar(c *Ctx) {
+	w := c.w
+	rule := "decoder-grammar"
+	for _, name := range []string{"parseHostPort", "parseViaParam"} {
+		f := c.fn(rule, name)
+		if f == nil {
+			continue
+		}
+		splitsAtColon := false
+		bracketAware := false
+		var site ssa.Instruction
+		for _, cs := range w.callsIn(f) {
+			if !strings.HasPrefix(cs.Name, "strings.") && !strings.HasPrefix(cs.Name, "bytes.") && !strings.HasPrefix(cs.Name, "net.") {
+				continue
+			}
+			if cs.Name == "net.SplitHostPort" {
+				bracketAware = true
+			}
+			for _, a := range cs.In.Common().Args {
+				b, ok := constByte(a)
+				if !ok {
+					if s, isS := constString(a); isS && (strings.Contains(s, "[") || strings.Contains(s, "]")) {
+						bracketAware = true
+					}
+					continue
+				}
+				switch b {
+				case ':':
+					if indexFamily[cs.Name] || cs.Name == "strings.Split" || cs.Name == "strings.SplitN" || cs.Name == "strings.Cut" {
+						splitsAtColon = true
+						site = cs.In
+					}
+				case '[', ']':
+					bracketAware = true
+				}
+			}
+		}
+		eachInstr(f, func(in ssa.Instruction) {
+			if bo, ok := in.(*ssa.BinOp); ok && (bo.Op == token.EQL || bo.Op == token.NEQ) {
+				for _, o := range []ssa.Value{bo.X, bo.Y} {
+					if k, isK := constInt(o); isK && (k == '[' || k == ']') {
+						bracketAware = true
+					}
+				}
+			}
+		})
+		if !splitsAtColon {
+			c.undecided(rule, name+"/ipv6-reference", w.pos(f.Pos()), name+" does not separate host and port at ':' in a recognised way")
+			continue
+		}
+		c.check(bracketAware, rule, name+"/ipv6-reference", w.ipos(site), "host and port are separated with regard to a bracketed IPv6 reference", name+" separates host and port at a ':' without looking for the brackets of an IPv6 reference: a host such as [2001:db8::1] cannot be decoded (the text after the first ':' is taken for the port)")
+	}
 }
 
 // sureEmits: instruction in writes text containing b whenever it executes (constant text of a write call, or a call to
@@ -874,6 +957,23 @@ func c14RequiredSeparators(c *Ctx) {
 			}
 		}
 		required := false
+		for _, cs := range w.callsIn(df, "strings.Cut") {
+			call, ok := cs.In.(*ssa.Call)
+			if !ok {
+				continue
+			}
+			if sp, isC := constString(call.Call.Args[1]); isC && sp == string(rq.sep) {
+				found := func(a Atom) bool {
+					e, isE := a.X.(*ssa.Extract)
+					return a.Kind == "bool" && isE && e.Tuple == ssa.Value(call) && e.Index == 2
+				}
+				for _, st := range w.fieldStores(df, rq.list) {
+					if w.requires(df, st, found, true) {
+						required = true
+					}
+				}
+			}
+		}
 		if idx != nil {
 			found := func(a Atom) bool { return a.Kind == "ltk" && a.K == 0 && strip(a.X) == ssa.Value(idx) }
 			for _, st := range w.fieldStores(df, rq.list) {
